@@ -87,6 +87,9 @@ type memTransport struct {
 	gate1   map[uint32]chan struct{}
 	gate2   map[uint32]chan struct{}
 	event   chan string // "r1:<id>", "r2:<id>", "done:<id>"
+	// fault injection (op fcer): the round-1 p2p message of node drop[0] to node drop[1] lacks the share of
+	// validator drop[2] (a peer that sends an incomplete but otherwise well-formed message)
+	drop *[3]uint32
 }
 
 func newTransport(n int, rng *hx.Rng) *memTransport {
@@ -124,6 +127,9 @@ func (t *memTransport) Round1(ctx context.Context, castR1 map[key]frost.Round1Bc
 	}
 	msgs := map[uint32]*pb.FrostRound1P2P{}
 	for k, s := range p2pR1 {
+		if t.drop != nil && k.SourceID == t.drop[0] && k.TargetID == t.drop[1] && k.ValIdx == t.drop[2] {
+			continue
+		}
 		m, ok := msgs[k.TargetID]
 		if !ok {
 			m = new(pb.FrostRound1P2P)
@@ -248,9 +254,10 @@ type ceremony struct {
 }
 
 // runCeremony starts n nodes and coordinates the release order of the two rounds.
-func runCeremony(n, t, nv int, dkgCtx string, sched uint64) *ceremony {
+func runCeremony(n, t, nv int, dkgCtx string, sched uint64, drop *[3]uint32) *ceremony {
 	rng := hx.NewRng(sched)
 	tp := newTransport(n, hx.NewRng(sched^0x5eed)) // delivery-order PRNG, used only under tp.mu
+	tp.drop = drop
 	c := &ceremony{n: n, t: t, nv: nv, tp: tp, x: map[int]tbls.PrivateKey{}, pkids: map[tbls.PublicKey]int{}}
 	ctx, cancel := context.WithTimeout(context.Background(), 120*time.Second)
 	defer cancel()
@@ -529,7 +536,7 @@ func main() {
 			if ctxs == "-" {
 				ctxs = ""
 			}
-			cer = runCeremony(n, t, nv, ctxs, sched)
+			cer = runCeremony(n, t, nv, ctxs, sched, nil)
 			run.Count("cer")
 			valid := t >= 2 && t <= n && n >= 2 && nv >= 1
 			if !cer.ok {
@@ -550,6 +557,37 @@ func main() {
 			cer.monitors(run)
 			run.Case(fmt.Sprintf("cer:%d:%d:%d", n, t, nv))
 			run.Op(op, "ok")
+			return
+		}
+		if f[0] == "fcer" {
+			// a ceremony in which one peer's round-1 p2p message to one node lacks one validator's share: the receiver
+			// cannot compute that validator's key with everybody's contribution, so the ceremony must not succeed;
+			// if it does, the usual output monitors decide whether the nodes hold one consistent key
+			n, _ := strconv.Atoi(f[1])
+			t, _ := strconv.Atoi(f[2])
+			nv, _ := strconv.Atoi(f[3])
+			sched, _ := strconv.ParseUint(f[5], 10, 64)
+			ctxs := f[4]
+			if ctxs == "-" {
+				ctxs = ""
+			}
+			var d [3]uint32
+			for i := 0; i < 3; i++ {
+				v, _ := strconv.Atoi(f[6+i])
+				d[i] = uint32(v)
+			}
+			cer = runCeremony(n, t, nv, ctxs, sched, &d)
+			run.Count("fcer")
+			if !cer.ok {
+				run.Case(fmt.Sprintf("fcer:%d:%d:%d", n, t, nv))
+				run.Op(op, "err")
+				return
+			}
+			run.Violate("frost:incomplete_round1_message_accepted", fmt.Sprintf("n=%d t=%d vals=%d: node %d's message to node %d lacked the share of validator %d and the ceremony succeeded on every node",
+				n, t, nv, d[0], d[1], d[2]))
+			cer.monitors(run)
+			run.Op(op, "ok")
+			cer = nil
 			return
 		}
 		if cer == nil || !cer.ok {
@@ -756,6 +794,15 @@ func main() {
 			nv := 1 + rng.Intn(4)
 			if a.Tier == "quick" && n >= 7 && nv > 2 {
 				nv = 1 + rng.Intn(2) // large ceremonies are slow; keep the quick tier short
+			}
+			if nv >= 2 && rng.Chance(1, 6) { // one incomplete round-1 message: must not yield a successful ceremony
+				src := 1 + rng.Intn(n)
+				tgt := 1 + rng.Intn(n-1)
+				if tgt >= src {
+					tgt++
+				}
+				exec(fmt.Sprintf("fcer %d %d %d %s %d %d %d %d", n, t, nv, ctxs[rng.Intn(len(ctxs))], rng.U64()%1000000, src, tgt, rng.Intn(nv)))
+				continue
 			}
 			if rng.Chance(1, 25) { // invalid thresholds must be refused
 				bad := []int{1, n + 1, 0}[rng.Intn(3)]
